@@ -253,6 +253,10 @@ var templates = []string{
 	"NF { cmd = \"echo sh-\" NR \"-\" length($0) \"-\" NF; cmd | getline r; close(cmd); print \"got\", r }",
 	"NR <= 3 { system(\"echo sys-\" NR \"-\" length($0)) }",
 	"NR == 1 { print \"piped \" length($0) | \"cat\"; close(\"cat\") }",
+	// separators that take the unusual paths of the setters: a lone byte that is not valid UTF-8, a multi-byte
+	// character, an invalid-then-valid sequence of assignments
+	"BEGIN { RS = \"\\377\"; FS = \"\\200\" } { nrec++; nfld += NF } END { print \"bytes\", nrec + 0, nfld + 0 }",
+	"BEGIN { RS = \"é\"; SUBSEP = \"\\376\" } { seen[NR, NF] = 1 } END { for (k in seen) c8++; print \"runes\", c8 + 0 }",
 	// conversion formats that depend on the input: concurrent executions use different CONVFMT / OFMT values
 	"NR == 1 { CONVFMT = \"%.\" (1 + length($0) % 5) \"g\"; OFMT = \"%.\" (2 + NF) \"f\" }\n{ cv = (NR + 0.123456789) \"\"; idx[NR / 7] = 1; print cv, 1 / 7, NR / 3 }\nEND { for (k in idx) nk++; print nk + 0, 22 / 7 \"\" }",
 	// range patterns, left open or closed at the end of the input: where the range stands is state of the run
